@@ -642,10 +642,6 @@ macro_rules! c18h {
 // quick: concrete new sizes (below the cursor, equal to the capacity, growing), everything else symbolic
 // @h props=C18 tier=quick timeout=1800 mem=28 bounds=CAP=64,unify,history=a(24)b(8)c(rest)-drop(a),n=80(grow),state-only optcover=floored_at_allocated|allocation_in_grown_space|served_by_list_after_truncate|refused_after_truncate|served_from_fresh_space_after_truncate
 c18h!(c18_truncate_full_unify_opt_grow80, 24, true, Optimistic, true, 0, Some(80), nofollow);
-// @h props=C18,C08 tier=thorough timeout=1800 mem=28 bounds=CAP=64,unify,history=a(24)b(8)c(rest)-drop(a),n=80(grow),m=12(fits-grown-space) optcover=state-only_variant
-c18h!(c18_truncate_full_unify_opt_grow80_m12, 24, true, Optimistic, true, 0, Some(80), m 12);
-// @h props=C18 tier=thorough timeout=1800 mem=28 bounds=CAP=64,unify,history=a(24)b(8)c(rest)-drop(a),n=80(grow),m=17(one-byte-too-many) optcover=state-only_variant
-c18h!(c18_truncate_full_unify_opt_grow80_m17, 24, true, Optimistic, true, 0, Some(80), m 17);
 // @h props=C18 tier=quick timeout=1800 mem=28 bounds=CAP=64,plain,history=a(24)b(8)c(rest)-drop(a),n=10(floored-at-allocated),state-only optcover=floored_at_allocated|allocation_in_grown_space|served_by_list_after_truncate|refused_after_truncate|served_from_fresh_space_after_truncate
 c18h!(c18_truncate_full_plain_pess_floor, 24, true, Pessimistic, false, 0, Some(10), nofollow);
 // @h props=C18 tier=thorough timeout=1800 mem=28 bounds=CAP=64,plain,history=a(24)b(8)c(rest)-drop(a),n=10(floored-at-allocated),follow-up-request optcover=state-only_variant
